@@ -42,6 +42,15 @@ ASSUMPTIONS = [
     "answer is below that head; (H2) cursor arithmetic stays below 2^64",
     "convergence is stated for a chain that stops forking but keeps growing and finalizing (a head that never rises again leaves "
     "WaitForNewBlocks waiting, which is the code's intended behaviour)",
+    "findings (witnesses in harness/c06/testdata, replay with bin/check C06 --replay <file>; both reproduce on the real code): "
+    "(F-a) midcrash_false_rewind.json: a stop between AddBlockToTrack and ProcessBlock leaves a tracked header without a processed "
+    "block; after a fork it makes the detector call Reorg although no processed block was replaced (a processed canonical block is "
+    "dropped and downloaded again) - Coq: C06_false_rewind_after_stop_between_track_and_process; "
+    "(F-b) race_tracked_range_delete_after_restart.json: if the detector is slow between `<-sub.ReorgProcessed` and "
+    "removeTrackedBlockRange/removeRange, the restarted download can track a new block inside [from,to] first; the deletion then "
+    "removes it, the block is processed but untracked, and a later reorg of it is never detected (store keeps the stale block); "
+    "(O-c) free stream: AddBlockToTrack (memory, then INSERT) racing with a tick that untracks the same finalized block leaves a row "
+    "in tracked_block although memory is empty (harmless: the next start loads it and the first tick drops it)",
     "not modelled: failing SQLite statements inside the detector (e.g. saveTrackedBlock updates memory before the INSERT, so a failed INSERT "
     "followed by the driver's retry leaves the block tracked in memory only); the reorg_event primary key (detected_at in seconds, "
     "subscriber, from, to) which delays a second detection of the same range within one wall-clock second (absorbed by the harness: "
@@ -90,6 +99,8 @@ def sev(e):
         return "SR"
     if op == "m":
         return "SM"
+    if op == "x":   # witness-only schedule (harness/c06 raceTick); the model has no such step: plain tick
+        return "ST false 0"
     raise ValueError("unknown op " + op)
 
 
@@ -131,6 +142,13 @@ def nontrivial_key(o):
 
 
 def finding_key(o):
+    """Two violation classes are reachable only through the witness-only script ops (never generated by default):
+    m = stop between AddBlockToTrack and ProcessBlock, x = detector slow between ReorgProcessed and the range deletion."""
+    ops = {e["op"] for e in o["in"]["script"]}
+    if "x" in ops:
+        return "C06:tracked-range-deleted-after-download-restarted"
+    if "m" in ops:
+        return "C06:false-rewind-after-stop-between-track-and-process"
     return None
 
 
